@@ -35,6 +35,8 @@ def check(m, run):
     _sdn.cp2(m, run)      # parameters are accepted exactly when they lie in the (normalised) domain: no tolerance lets an evaluation out of it
     kd1(m, run)
     pu4(m, run)
+    from .. import rules_state as _rs17
+    _rs17.iv3_cache_keys(m, run, _rs17.CONCRETE)      # elements handed to worker processes and back (a pickle round trip) keep their cache entries (CK3)
     from . import c16, c02
     c16.pu4(m, run)        # ... and no caller mutates a memoised result: otherwise results depend on what is still cached (cache size, call history)
     ev_ = lambda c: m.cls('evaluators', c).methods['derivatives']
